@@ -274,6 +274,15 @@ def corpus_histories():
            'put %s @3:4' % hx('a'), 'put %s @3:5' % hx('z'), 'reopen', 'layout']
     ops += ['get %s -' % hx('m')] * 140 + ['layout', 'get %s -' % hx('a'), 'get %s -' % hx('z'), 'scan -', 'reopen', 'get %s -' % hx('a'), 'layout']
     out.append((dict(BASE_CFG), ops))
+    # (7) a user key split over two ADJACENT level-1 files X=[f..p@hi] Y=[p@lo..r] (1.2 MB value + snapshot), and a compaction
+    #     that starts from a DIFFERENT level-1 file Z=[d..e]: its level-2 partner W=[c..n] makes the level-1 inputs grow over
+    #     X, which must then drag Y along (boundary files of the EXPANDED input set)
+    ops = ['open', 'put %s @2:1' % hx('c'), 'put %s @2:2' % hx('n'), 'flush', 'put %s @2:3' % hx('d'), 'put %s @2:4' % hx('e'), 'flush',
+           'put %s @2:5' % hx('f'), 'put %s @2:6' % hx('p'), 'put %s @2:7' % hx('r'), 'flush', 'layout', 'snap',
+           'put %s @2:8' % hx('m'), 'put %s @1228800:9' % hx('p'), 'flush', 'layout', 'crange 0 %s %s' % (hx('m'), hx('p')), 'layout',
+           'crange 1 %s %s' % (hx('d'), hx('e')), 'layout', 'get %s -' % hx('p'), 'get %s 0' % hx('p'), 'scan -', 'scan 0',
+           'reopen', 'get %s -' % hx('p'), 'layout']
+    out.append((dict(BASE_CFG, write_buffer=8388608), ops))
     # (5) log / MANIFEST reuse across many version edits: the reused MANIFEST grows past a 32 KiB block boundary
     #     (big keys make each edit ~6 KiB), then clean reopens
     big = lambda i: (bytes([0x62]) * 2990 + b'%04d' % i).hex()
